@@ -1,52 +1,353 @@
 /* VERIF-UNIT
 {
- "name": "do_one_pass",
- "props": ["C03"],
+ "name": "do_one_pass_replay",
+ "props": [
+  "C03"
+ ],
  "level": "U/iter",
  "tier": "wip",
  "harness": "h_one_pass",
- "enforce": ["do_one_pass"],
- "replace": ["jread", "count_tags", "scan_revoke_records", "calc_chksums", "fc_do_one_pass",
-	     "jbd2_descriptor_block_csum_verify", "jbd2_commit_block_csum_verify", "jbd2_block_tag_csum_verify",
-	     "getblk", "jbd2_journal_test_revoke"],
+ "enforce": [
+  "do_one_pass"
+ ],
+ "replace": [
+  "count_tags",
+  "scan_revoke_records",
+  "calc_chksums",
+  "fc_do_one_pass"
+ ],
  "loop_contracts": true,
- "includes": ["e2fsck"],
- "defines": ["VERIF_FIXED_BS=1024"],
- "unwindset": {"do_one_pass.0": 2},
- "unwind_reason": "do_one_pass.0 is not a loop but the backward `goto ignore_crc_mismatch` (chksum_error -> earlier label, which leaves through `goto done`): it can be taken at most once, the unwinding assertion checks that; both real loops are cut by loop contracts",
- "cbmc_flags": ["--no-signed-overflow-check", "--object-bits", "12"],
+ "includes": [
+  "e2fsck"
+ ],
+ "defines": [
+  "VERIF_PASS_REPLAY",
+  "VERIF_MAX_BS_LOG=6"
+ ],
+ "unwindset": {
+  "do_one_pass.0": 2,
+  "do_one_pass.1": 2
+ },
+ "unwind_reason": "do_one_pass.0 / .1 are the two loops AFTER the loop-contract transformation: each is executed exactly twice by construction (base case, then one arbitrary step from the havocked state, which ends in assume(false)); no real loop is unwound",
+ "cbmc_flags": [
+  "--no-signed-overflow-check",
+  "--object-bits",
+  "8"
+ ],
  "timeout": 900,
- "functions": ["e2fsck/recovery.c:do_one_pass"],
- "assumes": ["U/iter: the outer while(1) and the tag loop are cut by safety/typing invariants (in-place named anchors VERIF_INV_DO_ONE_PASS_OUTER / _TAGS); every statement of the monitor holds for an ARBITRARY iteration started in ANY state satisfying the invariants, nothing is claimed about the accumulated effect of all iterations (which transactions are reached)",
-	     "j_blocksize is a power of two in 1 KiB .. 64 KiB = fs block size; j_format_version is 1 or 2; all feature bits, superblock fields, journal geometry, recovery_info and all journal block contents are arbitrary",
-	     "callees replaced by contracts: jread (fresh arbitrary block or error; error whenever offset >= j_total_len: unit jread), count_tags (>= 1: unit count_tags), scan_revoke_records, calc_chksums (arbitrary result, frame only), fc_do_one_pass (fast-commit replay is outside this unit: arbitrary result, its own filesystem updates are not modelled), the three jbd2 checksum verifiers (0/1, 1 when the journal has no v2/v3 checksums, block left as it was: units csum/jbd2_*_csum_verify prove restoration pointwise for every byte), getblk (NULL or fresh clean buffer), jbd2_journal_test_revoke (arbitrary 0/1, logged), memcpy is a stub (exact for the 12-byte tag copy, otherwise destination havocked and faithful at one ghost byte index)",
-	     "mark_buffer_dirty / mark_buffer_uptodate / brelse are stubs: set the flag; brelse frees the buffer (so any later use is a pointer violation) and refuses a dirty buffer other than the monitored one (the real brelse writes a dirty buffer: C04 units)",
-	     "journal buffers carry 32 slack bytes behind the j_blocksize data bytes that may be pointed to but are never accessed (every tag read is asserted to end inside the block); see FINDING in tags.c about forming a pointer up to 16 bytes behind the buffer",
-	     "signed-overflow checking is off: the statistics counters info->nr_replays / nr_revoke_hits (printed by jbd_debug only) are incremented without a guard and would overflow after 2^31 replayed blocks",
-	     "the range statement for next_log_block is conditional on a sane geometry j_first <= s_start < j_last (e2fsck_journal_load checks neither s_first nor s_start) and on the journal not having the FAST_COMMIT feature (see FINDING wrap/fast_commit)"],
+ "functions": [
+  "e2fsck/recovery.c:do_one_pass",
+  "e2fsck/recovery.c:jread",
+  "e2fsck/recovery.c:read_tag_block"
+ ],
+ "assumes": [
+  "U/iter: the block loop `while (1)` and the tag loop are cut by safety/typing invariants (in-place named anchors VERIF_INV_DO_ONE_PASS_OUTER / _TAGS in e2fsck/recovery.c, text in this unit); every statement of the monitor holds for an ARBITRARY iteration started in ANY state satisfying the invariants; nothing is claimed about the accumulated effect of all iterations (which transactions are reached)",
+  "one unit per pass (the pass argument is a constant, so that the other passes' branches drop out); j_blocksize is any power of two in 1 KiB .. 64 KiB (= fs block size); j_format_version is 1 or 2; all feature bits, superblock fields, recovery_info and all journal block contents are arbitrary; j_first / j_last / j_fc_first / j_fc_last fit in 32 bits (they are loaded from be32 superblock fields)",
+  "callees inside recovery.c are REAL (jread, read_tag_block, the three jbd2 checksum verifiers, journal_tag_bytes, feature tests) except: count_tags (contract: >= 1, frame empty; unit count_tags), calc_chksums and scan_revoke_records (arbitrary result, frame only; scan_revoke_records: unit scan_revoke_records), fc_do_one_pass (fast-commit replay is outside this unit: arbitrary result, its own filesystem updates are not modelled)",
+  "everything outside recovery.c is a stub: the front end's buffer layer (jbd2_journal_bmap, getblk, buffer_uptodate, wait_on_buffer, mark_buffer_dirty, mark_buffer_uptodate, brelse) hands out three pre-allocated buffers with arbitrary contents (CBMC 6.11 forbids malloc/free inside a loop with a contract), may fail at any call, and keeps the dirty/uptodate flags in ghost state (recovery.c never touches them directly); jbd2_journal_test_revoke answers arbitrarily and logs the question; the CRC primitives return arbitrary values and log their arguments (little-endian host); memcpy is exact for the 12-byte tag copy, otherwise the destination is havocked and faithful at one ghost byte index",
+  "printk prints nothing, J_ASSERT is a proof obligation (macros re-defined in the unit before the real file is included)",
+  "journal buffers carry 32 slack bytes behind the j_blocksize data bytes that may be pointed to but are never accessed (every tag read is asserted to end inside the block); see FINDING in tags.c about forming a pointer up to 16 bytes behind the buffer",
+  "ghost statement in the anchor at the top of the tag loop body: tagp = bh->b_data + (tagp - bh->b_data), asserted to be the identity (tells the verifier which object tagp points into after the loop cut)",
+  "signed-overflow checking is off: the statistics counters info->nr_replays / nr_revoke_hits (printed by jbd_debug only) are incremented without a guard and would overflow after 2^31 replayed blocks",
+  "the range statement for next_log_block is conditional on a sane geometry j_first <= s_start < j_last (e2fsck_journal_load checks neither s_first nor s_start) and on the journal not having the FAST_COMMIT feature (see FINDING wrap/fast_commit below)"
+ ],
  "native": false
 }
 */
 /* VERIF-UNIT
 {
- "name": "do_one_pass_debugfs",
- "props": ["C03"],
+ "name": "do_one_pass_scan",
+ "props": [
+  "C03"
+ ],
  "level": "U/iter",
  "tier": "wip",
  "harness": "h_one_pass",
- "enforce": ["do_one_pass"],
- "replace": ["jread", "count_tags", "scan_revoke_records", "calc_chksums", "fc_do_one_pass",
-	     "jbd2_descriptor_block_csum_verify", "jbd2_commit_block_csum_verify", "jbd2_block_tag_csum_verify",
-	     "getblk", "jbd2_journal_test_revoke"],
+ "enforce": [
+  "do_one_pass"
+ ],
+ "replace": [
+  "count_tags",
+  "scan_revoke_records",
+  "calc_chksums",
+  "fc_do_one_pass"
+ ],
  "loop_contracts": true,
- "includes": ["e2fsck", "debugfs"],
- "defines": ["DEBUGFS"],
- "unwindset": {"do_one_pass.0": 2},
- "unwind_reason": "as do_one_pass",
- "cbmc_flags": ["--no-signed-overflow-check", "--object-bits", "12"],
+ "includes": [
+  "e2fsck"
+ ],
+ "defines": [
+  "VERIF_PASS_SCAN",
+  "VERIF_MAX_BS_LOG=6"
+ ],
+ "unwindset": {
+  "do_one_pass.0": 2,
+  "do_one_pass.1": 2
+ },
+ "unwind_reason": "do_one_pass.0 / .1 are the two loops AFTER the loop-contract transformation: each is executed exactly twice by construction (base case, then one arbitrary step from the havocked state, which ends in assume(false)); no real loop is unwound",
+ "cbmc_flags": [
+  "--no-signed-overflow-check",
+  "--object-bits",
+  "8"
+ ],
  "timeout": 900,
- "functions": ["e2fsck/recovery.c:do_one_pass"],
- "assumes": ["same as do_one_pass, debugfs include environment (struct buffer_head / kdev_s carry an ext2_filsys instead of an e2fsck_t; J_ASSERT is assert)"],
+ "functions": [
+  "e2fsck/recovery.c:do_one_pass",
+  "e2fsck/recovery.c:jread",
+  "e2fsck/recovery.c:read_tag_block"
+ ],
+ "assumes": [
+  "same as do_one_pass_replay; pass = PASS_SCAN",
+  "excluded: a commit block of transaction id 0 in an ASYNC_COMMIT journal (FINDING tid0 in this file; unit do_one_pass_scan_tid0 shows it)"
+ ],
+ "native": false
+}
+*/
+/* VERIF-UNIT
+{
+ "name": "do_one_pass_revoke",
+ "props": [
+  "C03"
+ ],
+ "level": "U/iter",
+ "tier": "wip",
+ "harness": "h_one_pass",
+ "enforce": [
+  "do_one_pass"
+ ],
+ "replace": [
+  "count_tags",
+  "scan_revoke_records",
+  "calc_chksums",
+  "fc_do_one_pass"
+ ],
+ "loop_contracts": true,
+ "includes": [
+  "e2fsck"
+ ],
+ "defines": [
+  "VERIF_PASS_REVOKE",
+  "VERIF_MAX_BS_LOG=6"
+ ],
+ "unwindset": {
+  "do_one_pass.0": 2,
+  "do_one_pass.1": 2
+ },
+ "unwind_reason": "do_one_pass.0 / .1 are the two loops AFTER the loop-contract transformation: each is executed exactly twice by construction (base case, then one arbitrary step from the havocked state, which ends in assume(false)); no real loop is unwound",
+ "cbmc_flags": [
+  "--no-signed-overflow-check",
+  "--object-bits",
+  "8"
+ ],
+ "timeout": 900,
+ "functions": [
+  "e2fsck/recovery.c:do_one_pass",
+  "e2fsck/recovery.c:jread",
+  "e2fsck/recovery.c:read_tag_block"
+ ],
+ "assumes": [
+  "same as do_one_pass_replay; pass = PASS_REVOKE"
+ ],
+ "native": false
+}
+*/
+/* VERIF-UNIT
+{
+ "name": "do_one_pass_replay_debugfs",
+ "props": [
+  "C03"
+ ],
+ "level": "U/iter",
+ "tier": "wip",
+ "harness": "h_one_pass",
+ "enforce": [
+  "do_one_pass"
+ ],
+ "replace": [
+  "count_tags",
+  "scan_revoke_records",
+  "calc_chksums",
+  "fc_do_one_pass"
+ ],
+ "loop_contracts": true,
+ "includes": [
+  "e2fsck",
+  "debugfs"
+ ],
+ "defines": [
+  "DEBUGFS",
+  "VERIF_PASS_REPLAY",
+  "VERIF_MAX_BS_LOG=6"
+ ],
+ "unwindset": {
+  "do_one_pass.0": 2,
+  "do_one_pass.1": 2
+ },
+ "unwind_reason": "do_one_pass.0 / .1 are the two loops AFTER the loop-contract transformation: each is executed exactly twice by construction (base case, then one arbitrary step from the havocked state, which ends in assume(false)); no real loop is unwound",
+ "cbmc_flags": [
+  "--no-signed-overflow-check",
+  "--object-bits",
+  "8"
+ ],
+ "timeout": 900,
+ "functions": [
+  "e2fsck/recovery.c:do_one_pass",
+  "e2fsck/recovery.c:jread",
+  "e2fsck/recovery.c:read_tag_block"
+ ],
+ "assumes": [
+  "same as do_one_pass_replay; pass = PASS_REPLAY, debugfs include environment (struct buffer_head / kdev_s carry an ext2_filsys instead of an e2fsck_t)"
+ ],
+ "native": false
+}
+*/
+/* VERIF-UNIT
+{
+ "name": "do_one_pass_scan_debugfs",
+ "props": [
+  "C03"
+ ],
+ "level": "U/iter",
+ "tier": "wip",
+ "harness": "h_one_pass",
+ "enforce": [
+  "do_one_pass"
+ ],
+ "replace": [
+  "count_tags",
+  "scan_revoke_records",
+  "calc_chksums",
+  "fc_do_one_pass"
+ ],
+ "loop_contracts": true,
+ "includes": [
+  "e2fsck",
+  "debugfs"
+ ],
+ "defines": [
+  "DEBUGFS",
+  "VERIF_PASS_SCAN",
+  "VERIF_MAX_BS_LOG=6"
+ ],
+ "unwindset": {
+  "do_one_pass.0": 2,
+  "do_one_pass.1": 2
+ },
+ "unwind_reason": "do_one_pass.0 / .1 are the two loops AFTER the loop-contract transformation: each is executed exactly twice by construction (base case, then one arbitrary step from the havocked state, which ends in assume(false)); no real loop is unwound",
+ "cbmc_flags": [
+  "--no-signed-overflow-check",
+  "--object-bits",
+  "8"
+ ],
+ "timeout": 900,
+ "functions": [
+  "e2fsck/recovery.c:do_one_pass",
+  "e2fsck/recovery.c:jread",
+  "e2fsck/recovery.c:read_tag_block"
+ ],
+ "assumes": [
+  "same as do_one_pass_replay; pass = PASS_SCAN, debugfs include environment (struct buffer_head / kdev_s carry an ext2_filsys instead of an e2fsck_t)",
+  "excluded: a commit block of transaction id 0 in an ASYNC_COMMIT journal (FINDING tid0 in this file; unit do_one_pass_scan_tid0 shows it)"
+ ],
+ "native": false
+}
+*/
+/* VERIF-UNIT
+{
+ "name": "do_one_pass_revoke_debugfs",
+ "props": [
+  "C03"
+ ],
+ "level": "U/iter",
+ "tier": "wip",
+ "harness": "h_one_pass",
+ "enforce": [
+  "do_one_pass"
+ ],
+ "replace": [
+  "count_tags",
+  "scan_revoke_records",
+  "calc_chksums",
+  "fc_do_one_pass"
+ ],
+ "loop_contracts": true,
+ "includes": [
+  "e2fsck",
+  "debugfs"
+ ],
+ "defines": [
+  "DEBUGFS",
+  "VERIF_PASS_REVOKE",
+  "VERIF_MAX_BS_LOG=6"
+ ],
+ "unwindset": {
+  "do_one_pass.0": 2,
+  "do_one_pass.1": 2
+ },
+ "unwind_reason": "do_one_pass.0 / .1 are the two loops AFTER the loop-contract transformation: each is executed exactly twice by construction (base case, then one arbitrary step from the havocked state, which ends in assume(false)); no real loop is unwound",
+ "cbmc_flags": [
+  "--no-signed-overflow-check",
+  "--object-bits",
+  "8"
+ ],
+ "timeout": 900,
+ "functions": [
+  "e2fsck/recovery.c:do_one_pass",
+  "e2fsck/recovery.c:jread",
+  "e2fsck/recovery.c:read_tag_block"
+ ],
+ "assumes": [
+  "same as do_one_pass_replay; pass = PASS_REVOKE, debugfs include environment (struct buffer_head / kdev_s carry an ext2_filsys instead of an e2fsck_t)"
+ ],
+ "native": false
+}
+*/
+/* VERIF-UNIT
+{
+ "name": "do_one_pass_scan_tid0",
+ "props": [
+  "C03"
+ ],
+ "level": "U/iter",
+ "tier": "wip",
+ "harness": "h_one_pass",
+ "enforce": [
+  "do_one_pass"
+ ],
+ "replace": [
+  "count_tags",
+  "scan_revoke_records",
+  "calc_chksums",
+  "fc_do_one_pass"
+ ],
+ "loop_contracts": true,
+ "includes": [
+  "e2fsck"
+ ],
+ "defines": [
+  "VERIF_PASS_SCAN",
+  "VERIF_MAX_BS_LOG=6",
+  "VERIF_STRICT_TID0"
+ ],
+ "unwindset": {
+  "do_one_pass.0": 2,
+  "do_one_pass.1": 2
+ },
+ "unwind_reason": "do_one_pass.0 / .1 are the two loops AFTER the loop-contract transformation: each is executed exactly twice by construction (base case, then one arbitrary step from the havocked state, which ends in assume(false)); no real loop is unwound",
+ "cbmc_flags": [
+  "--no-signed-overflow-check",
+  "--object-bits",
+  "8"
+ ],
+ "timeout": 900,
+ "functions": [
+  "e2fsck/recovery.c:do_one_pass",
+  "e2fsck/recovery.c:jread",
+  "e2fsck/recovery.c:read_tag_block"
+ ],
+ "assumes": [
+  "same as do_one_pass_scan but WITHOUT the exclusion of transaction id 0 in ASYNC_COMMIT journals: expected failing obligation (FINDING tid0 in this file)"
+ ],
  "native": false
 }
 */
@@ -252,6 +553,11 @@ static int calc_chksums(journal_t *journal, struct buffer_head *bh, unsigned lon
 	__CPROVER_loop_invariant(g_live == 1 && g_used == 1 && bh == POOL0 && g_armed == 0) \
 	__CPROVER_decreases((long)journal->j_blocksize + 32 - OP_OFF)
 
+#ifdef VERIF_PASS_REPLAY
+#define OP_REACH_REPLAY(n) REACH(n)
+#else
+#define OP_REACH_REPLAY(n) ((void)0)	/* the tag loop is not reachable in the other passes */
+#endif
 #define OP_T ((unsigned long long)spec_tag_bytes(journal->j_format_version, J_INC(journal)))
 #define OP_RAWFLAGS SPEC_TAG_FLAGS(bh->b_data, g_tag_off0)
 #define OP_RAWTAG (UB(bh->b_data) + g_tag_off0)
@@ -293,6 +599,35 @@ static int calc_chksums(journal_t *journal, struct buffer_head *bh, unsigned lon
 	CHECK(UB(obh->b_data)[verif_mc_k] == g_rd_byte, "W7: the log block itself is not modified"); \
 	CHECK(g_dirtied != nbh, "W: not dirty before the monitor"); \
 	g_armed = nbh; \
+	OP_REACH_REPLAY("replay write (in each of the base/step instances of the two cut loops)"); \
+	}
+
+/* C: the transaction counter advances only over a commit block of the expected transaction; PASS_SCAN accepts it (leaves
+ * end_transaction unset) only if, for a v2/v3 journal, h_chksum[0] (be32 at 0x10) equals the crc32c computed over the
+ * block with the journal's seed (that the field is taken as zero during the computation: unit jbd2_commit_block_csum_verify) */
+/*
+ * FINDING tid0 (unit do_one_pass_scan_tid0, tier wip): the scan pass uses info->end_transaction == 0 as "end of log not yet
+ * known".  With ASYNC_COMMIT, a commit block of transaction id 0 whose v2/v3 checksum does NOT match executes
+ * `info->end_transaction = next_commit_ID` (= 0), which leaves the marker unset: the scan carries on as if the transaction
+ * were good, and REVOKE/REPLAY then apply a checksum-invalid transaction.  Ids are 32-bit and wrap (tid_gt exists for that),
+ * and s_sequence == 0 can simply be written into a crafted journal superblock.  Same code in the kernel this file is taken from.
+ * The quick units exclude exactly this case (transaction id 0 in an ASYNC_COMMIT journal); the _tid0 unit does not and fails
+ * obligation "C: SCAN keeps the end of the log open only past commit blocks whose v2/v3 checksum matches".
+ */
+#ifdef VERIF_STRICT_TID0
+#define OP_TID0_EXCEPTION 0
+#else
+#define OP_TID0_EXCEPTION (next_commit_ID == 0 && SPEC_HAS(journal->j_format_version, J_INC(journal), 0x4u /* ASYNC_COMMIT */))
+#endif
+#define SPEC_BT_COMMIT 2u
+#define VERIF_MON_DO_ONE_PASS_COMMIT { \
+	CHECK(SPEC_BE32(bh->b_data) == SPEC_MAGIC && SPEC_BE32(bh->b_data + 4) == SPEC_BT_COMMIT && SPEC_BE32(bh->b_data + 8) == next_commit_ID, \
+	      "C: next_commit_ID advances only at a commit block with h_sequence == next_commit_ID"); \
+	CHECK(pass != PASS_SCAN || info->end_transaction != 0 || !J_CSUM23(journal) || OP_TID0_EXCEPTION || \
+	      (g_cs_buf == (const void *)bh->b_data && g_cs_seed == journal->j_csum_seed && SPEC_BE32(bh->b_data + 0x10) == g_cs_out), \
+	      "C: SCAN keeps the end of the log open only past commit blocks whose v2/v3 checksum matches"); \
+	CHECK(pass == PASS_SCAN || !spec_tid_geq(next_commit_ID, info->end_transaction), "C: REVOKE / REPLAY never step over end_transaction"); \
+	REACH("commit block accepted"); \
 	}
 
 #define VERIF_MON_DO_ONE_PASS_TAG_NEXT { \
@@ -302,6 +637,7 @@ static int calc_chksums(journal_t *journal, struct buffer_head *bh, unsigned lon
 	CHECK(flags == (int)OP_RAWFLAGS, "T: flags are the big-endian flags of the raw tag"); \
 	CHECK(g_live == 1 && g_used == 1 && g_armed == 0, "B: data and target buffers released, descriptor still held"); \
 	g_prev_last = (OP_RAWFLAGS & SPEC_FLAG_LAST_TAG) != 0; \
+	OP_REACH_REPLAY("end of a tag iteration"); \
 	}
 
 /* messages and assertions of the kernel code: printk prints nothing here (CBMC's variadic printf model explodes under
@@ -521,14 +857,18 @@ void h_one_pass(void)
 	int r = do_one_pass(&J, &INFO, IN.pass);
 
 	CHECK(g_live == 0 && g_used == 0, "B: every buffer obtained by the pass was released");
-	if (IN.pass == PASS_SCAN) {
-		CHECK(INFO.start_transaction == IN.s_sequence, "E: SCAN starts at the superblock's s_sequence");
-		REACH("scan");
-	} else {
-		CHECK(INFO.end_transaction == IN.end_transaction && INFO.start_transaction == IN.start_transaction,
-		      "E: REVOKE and REPLAY leave the transaction window found by SCAN alone");
-		if (IN.pass == PASS_REPLAY) REACH("replay"); else REACH("revoke");
-	}
+#if defined(VERIF_PASS_SCAN)
+	CHECK(INFO.start_transaction == IN.s_sequence, "E: SCAN starts at the superblock's s_sequence");
+	REACH("scan");
+#else
+	CHECK(INFO.end_transaction == IN.end_transaction && INFO.start_transaction == IN.start_transaction,
+	      "E: REVOKE and REPLAY leave the transaction window found by SCAN alone");
+#if defined(VERIF_PASS_REPLAY)
+	REACH("replay");
+#else
+	REACH("revoke");
+#endif
+#endif
 	if (r) REACH("error return");
 	REACH("end");
 }
